@@ -28,7 +28,8 @@ ASSUMPTIONS = [
 REQUIRED_CLASSES = ["view-then-op", "empty-row", "unequal-rows", "single-row", "setitem", "concat", "compare-array", "split-join", "negative-index",
                     "empty-selection", "two-dimensional", "fancy-columns-then-ravel", "built-from-encoded-rows",
                     "str-equal-of-two-ragged-arrays", "numpy-array-function-on-flat-array",
-                    "split-on-a-list-of-letters", "join-of-encoded-rows", "results-reach-later-steps-unread", "alphabet-made-for-the-case"]
+                    "split-on-a-list-of-letters", "join-of-encoded-rows", "results-reach-later-steps-unread", "alphabet-made-for-the-case",
+                    "single-elements-by-row-and-column-lists-or-mask"]
 BOUNDS = {"quick": "1500 programs of up to 12 steps for each of 5 encodings (ASCII, ACGT, ACGTN, amino acids, an alphabet made for the case), lists of up to 6 strings of length up to 8",
           "thorough": "12000 programs of up to 30 steps per encoding, lists of up to 12 strings of length up to 20"}
 BUDGET_S = {"quick": 200, "thorough": 1500}
@@ -186,6 +187,22 @@ def run(case, stats=None):
                         continue
                     j = norm_index(op["j"], minlen)
                     push(R[:, j], "".join(m[j] for m in M), op)
+                elif name == "elems":
+                    # single elements picked by a list of row numbers and a list of column numbers (position p of row r, pair by pair)
+                    nonempty = [k for k, m in enumerate(M) if m]
+                    if not nonempty:
+                        continue
+                    rs = [nonempty[k % len(nonempty)] for k in op["rows"]]
+                    cs = [norm_index(c_, len(M[r_])) for r_, c_ in zip(rs, op["cols"])]
+                    rs = rs[:len(cs)]
+                    if not rs:
+                        continue
+                    as_arr = (lambda x: np.array(x, dtype=int)) if op.get("arr") else list
+                    push(R[as_arr(rs), as_arr(cs)], "".join(M[r_][c_] for r_, c_ in zip(rs, cs)), op)
+                elif name == "mask_elems":
+                    # the letters at which the array equals a letter, taken with the boolean (ragged) mask itself
+                    c = alphabet[op["c"] % len(alphabet)]
+                    push(R[R == c], "".join(ch for m in M for ch in m if ch == c), op)
                 elif name == "eq_char":
                     c = alphabet[op["c"] % len(alphabet)]
                     res = (R == c) if not op.get("ne") else (R != c)
@@ -461,6 +478,8 @@ def classify(case):
         cl.append("built-from-encoded-rows")
     if case["enc"].startswith("custom:"):
         cl.append("alphabet-made-for-the-case")
+    if any(op["op"] in ("elems", "mask_elems") for op in prog[1:]):
+        cl.append("single-elements-by-row-and-column-lists-or-mask")
     if case.get("prior_alphabets"):
         cl.append("other-alphabets-made-and-dropped-first")
     if case.get("untouched_results") and len(prog) >= 2:
@@ -503,6 +522,9 @@ def op_strategy(with_matrix=False):
         st.builds(lambda s, a, b: {"op": "col_slice", "src": s, "a": a, "b": b, "s": None}, src, small, small),
         st.builds(lambda s: {"op": "col_slice", "src": s, "a": None, "b": None, "s": -1}, src),
         st.builds(lambda s, j: {"op": "cell", "src": s, "j": j}, src, st.integers(0, 20)),
+        st.builds(lambda s, r, c, a: {"op": "elems", "src": s, "rows": r, "cols": c, "arr": int(a)}, src, st.lists(st.integers(0, 30), min_size=1, max_size=4),
+                  st.lists(st.integers(0, 30), min_size=1, max_size=4), st.booleans()),
+        st.builds(lambda s, c: {"op": "mask_elems", "src": s, "c": c}, src, st.integers(0, 25)),
         st.builds(lambda s, c, ne: {"op": "eq_char", "src": s, "c": c, "ne": int(ne)}, src, st.integers(0, 25), st.booleans()),
         st.builds(lambda s, k: {"op": "eq_array", "src": s, "k": k}, src, st.integers(0, 9)),
         st.builds(lambda s, t: {"op": "concat", "src": s, "src2": t}, src, src),
